@@ -150,6 +150,9 @@ c16!(c16_std10_read_size12, 16, read_instr_never_panics::<12>(&StdHooks10, 6, 2,
 //@ C16 c16_label_std06_no_panic quick default STD TH06-09 label decoding (instruction index * 20) of an arbitrary 32-bit jump argument never panics (no multiplication overflow)
 c16!(c16_label_std06_no_panic, 2, decode_label_never_panics(&StdHooks06));
 
+//@ C16 c16_std10_read_size9 quick default STD (TH095+): read_instr on arbitrary header bytes whose size field is 9 (one more than the header) returns Ok or Err and never panics (no underflow, no failed assert, no out-of-range read)
+c16!(c16_std10_read_size9, 13, read_instr_never_panics::<9>(&StdHooks10, 6, 2, 9));
+
 #[cfg(kani)]
 #[path = "/verif/.cache/playback/std.rs"]
 mod playback;
